@@ -318,6 +318,10 @@ class _ListDict_(object):
         if self.weighted:
             weight = self.weight.pop(choice)
             self._total_weight -= weight
+            if self._total_weight < 1e-9*weight:
+                #nearly everything was just removed, so the running sum may be
+                #dominated by roundoff.  Recalculate it (exactly 0 when empty).
+                self.update_total_weight()
             if weight == self.max_weight:  
                 #if we find ourselves in this case often
                 #it may be better just to let max_weight be the
